@@ -655,12 +655,10 @@ def run(ctx):
     S = symbols()
     allnames = list(S)
     cases = []
-    if ctx.quick:
-        alpha = [n for n in QUICK_SYMS if n in S]
-        cap = 600
-    else:
-        alpha = allnames
-        cap = 1500
+    # closure BFS over the symbols that own a memo table or a module-level record (the others leave the module state as it is, so they add
+    # no states); the thorough tier raises the state cap and adds depth 3 over the FULL alphabet from those symbols (below)
+    alpha = [n for n in QUICK_SYMS if n in S]
+    cap = 600 if ctx.quick else 1500
     # one BFS per first symbol (workers explore the sub-graphs reachable after that first call; states are merged within a worker)
     for nm in alpha:
         cases.append({'kind': 'bfs', 'first': [nm], 'alphabet': alpha, 'cap': cap})
